@@ -19,6 +19,7 @@ import (
 	"fmt"
 	"io"
 	"os"
+	"runtime/debug"
 	"sort"
 	"strings"
 	"time"
@@ -277,6 +278,9 @@ func guard(d time.Duration, f func() string) string {
 	go func() {
 		defer func() {
 			if r := recover(); r != nil {
+				if os.Getenv("C11_STACK") != "" {
+					fmt.Fprintf(os.Stderr, "%v\n%s\n", r, debug.Stack())
+				}
 				s := fmt.Sprint(r)
 				s = strings.NewReplacer("|", "!", "->", "=>", "\n", " ").Replace(s)
 				if len(s) > 80 {
@@ -307,6 +311,9 @@ func build(g *gspec, m string) built {
 	var res built
 	out := guard(20*time.Second, func() string {
 		G := g.cfg()
+		if err := G.Verify(); err != nil {
+			return "INVALID" // not a valid grammar: outside the property
+		}
 		P := g.precedences()
 		var t *lr.ParsingTable
 		var err error
